@@ -327,7 +327,12 @@ def run(run):
             case = cli.launch_case(g, fail_at=fa, n_runs=n_runs)
             mode = ("file", "dir")[li % 2]
             idopt = idopts[li % 3]
-            attempt = 1 + (li % 3)
+            attempt = 1 + ((li // 3 + run.shard[0]) % 3)   # decorrelated from the launch-id option
+            if (li + run.shard[0]) % 3 == 1:
+                # legal explicit nulls ("source: null") — same meaning, must not split inspect vs trace ids
+                for b in case["run_space"]["blocks"]:
+                    if rng.random() < 0.7:
+                        b["source"] = None
             wd = tempfile.mkdtemp(prefix="launch-", dir=scratch)
             sub = (run.tier == "thorough" and li % 10 == 0) or (run.tier == "quick" and li == 0 and run.shard[0] < 3 and cli.has_module_entry())
             res, records, launch_id, spec_id, _inp = check_launch(run, case, wd, mode, idopt, attempt, subprocess_=sub)
@@ -344,7 +349,7 @@ def run(run):
                 if launch_id in generated_ids:
                     run.violation("generated_launch_id_repeats", f"generated launch id {launch_id} repeated", {"ids": generated_ids})
                 generated_ids.append(launch_id)
-            if li % 2 == 0:
+            if li % 2 == 0 or any("source" in b for b in case["run_space"]["blocks"]):
                 spec_id_checks(run, case, scratch, rng, spec_id)
             shutil.rmtree(wd, ignore_errors=True)
             run.case(canon_hash([case["nodes"], case["run_space"], case["first_fail"], mode, idopt, attempt]), len(case["plan"]) >= 2,
